@@ -171,6 +171,14 @@ func (w *world) buildAction(delegator common.Address, avail *big.Int, allowAll b
 				op.Amount = cap
 			}
 		}
+		// "compound everything": more than the liquid balance, covered only together with the pending rewards that the
+		// call withdraws first
+		if len(dels) > 0 && r.Chance(1, 3) {
+			if pend := totalBondRewards(w.pendingRewards(infinite(w.c.QueryCtx())), delegator); pend.Cmp(w.minWithdraw) >= 0 {
+				op.Amount = new(big.Int).Add(avail, new(big.Int).Div(pend, big.NewInt(int64(2+r.Intn(3)))))
+				cls = "liquid-plus-part-of-pending-rewards"
+			}
+		}
 		switch r.Intn(12) {
 		case 0:
 			op.To = vh.Pick(r, w.eoas).Addr
